@@ -26,6 +26,13 @@ fn build(args: BuildArgs) -> anyhow::Result<Option<usize>> {
         dumb_console = DumbConsoleProgress::new(args.verbose);
         &dumb_console
     };
+    #[cfg(feature = "verif")]
+    let verif_progress = crate::verif::progress_override();
+    #[cfg(feature = "verif")]
+    let progress: &dyn Progress = match &verif_progress {
+        Some(p) => p,
+        None => progress,
+    };
 
     let build_filename = args.build_filename.as_deref().unwrap_or("build.ninja");
     let mut state = trace::scope("load::read", || load::read(build_filename))?;
@@ -67,6 +74,8 @@ fn build(args: BuildArgs) -> anyhow::Result<Option<usize>> {
         }
     }
 
+    #[cfg(feature = "verif")]
+    crate::verif::note_phase2();
     if !args.targets.is_empty() {
         for name in &args.targets {
             let Some(target) = work.lookup(name) else {
